@@ -36,6 +36,7 @@ type reqState struct {
 	arrived, inDo, ranDo, returned, cancelled, gateOpen bool
 	err                                             error
 	admitSeq                                        int
+	admitStep                                       int
 	arriveSeq                                       int
 	cancelledWhileWaiting                           bool
 }
@@ -56,6 +57,7 @@ func Exec(t *testing.T, sc Scenario) *evid.Failure {
 			return i - n // probes at the end: one per path
 		}
 		admitCounter, arriveCounter := 0, 0
+		curStep := 0
 		do := func(req *pool.Message) (*pool.Message, error) {
 			tok := req.Token()
 			i := int(tok[0])
@@ -63,6 +65,7 @@ func Exec(t *testing.T, sc Scenario) *evid.Failure {
 			st[i].inDo, st[i].ranDo = true, true
 			admitCounter++
 			st[i].admitSeq = admitCounter
+			st[i].admitStep = curStep
 			mu.Unlock()
 			var err error
 			select {
@@ -158,7 +161,11 @@ func Exec(t *testing.T, sc Scenario) *evid.Failure {
 			for i := range st {
 				for j := range st {
 					a, b := &st[i], &st[j]
-					if i != j && a.ranDo && b.ranDo && pathOf(i) == pathOf(j) && !a.cancelled && !b.cancelled && a.arriveSeq < b.arriveSeq && a.admitSeq > b.admitSeq {
+					// Admissions that happen within one quiescent step (a cascade: several requests become
+					// eligible at the same instant, e.g. because their gates were already open) race for
+					// the total limit after the per-path stage released them in order; which of them
+					// enters first is the scheduler's choice. Order is asserted across steps only.
+					if i != j && a.ranDo && b.ranDo && pathOf(i) == pathOf(j) && !a.cancelled && !b.cancelled && a.arriveSeq < b.arriveSeq && a.admitStep > b.admitStep {
 						fail = evid.Failf("limit/order", sc, "after event %d (%s): request %d arrived before request %d on the same path but was admitted after it: %s", step, what, i, j, desc())
 						return false
 					}
@@ -168,6 +175,9 @@ func Exec(t *testing.T, sc Scenario) *evid.Failure {
 		}
 		for k, e := range sc.Events {
 			i := e.Req
+			mu.Lock()
+			curStep = k + 1
+			mu.Unlock()
 			switch e.Kind {
 			case "arrive":
 				if !st[i].arrived {
@@ -198,6 +208,9 @@ func Exec(t *testing.T, sc Scenario) *evid.Failure {
 		for i := 0; i < n; i++ {
 			if st[i].arrived && !st[i].gateOpen {
 				st[i].gateOpen = true
+				mu.Lock()
+				curStep = len(sc.Events) + 1 + i
+				mu.Unlock()
 				close(gates[i])
 				bubble.Wait()
 				if fail == nil && !check(len(sc.Events)+i, fmt.Sprintf("drain %d", i)) {
